@@ -155,16 +155,18 @@ def deserFixedN (dec : Dec) (l : Nat) : Nat → Stream → Option (List Val × S
       | none => none
       | some (vs, s2) => some (v :: vs, s2)
 
-/-- variable-size elements delimited by consecutive offsets `o₀, o₁, …, scope` -/
-def deserVarN (dec : Dec) (emin emax : Nat) : List Nat → Stream → Option (List Val × Stream)
+/-- variable-size elements delimited by consecutive offsets `o₀, o₁, …, scope`; an offset beyond the
+    scope is rejected before it is used as an element size -/
+def deserVarN (dec : Dec) (emin emax scope : Nat) : List Nat → Stream → Option (List Val × Stream)
   | start :: stop :: rest, s =>
     if stop < start then none
+    else if stop > scope then none
     else if !(emin ≤ stop - start && stop - start ≤ emax) then none
     else
       match dec s (stop - start) with
       | none => none
       | some (v, s1) =>
-        match deserVarN dec emin emax (stop :: rest) s1 with
+        match deserVarN dec emin emax scope (stop :: rest) s1 with
         | none => none
         | some (vs, s2) => some (v :: vs, s2)
   | _, s => some ([], s)
@@ -191,7 +193,7 @@ def deserSeqWith (dec : Dec) (fixed : Bool) (l emin emax : Nat) (validCount : Na
         else if count = 0 then none   -- `count - 1` on a uint32 raises
         else
           let (more, s2) := readOffsets (count - 1) s1
-          (deserVarN dec emin emax (first :: more ++ [scope]) s2).map fun (vs, s') => (.seq vs, s')
+          (deserVarN dec emin emax scope (first :: more ++ [scope]) s2).map fun (vs, s') => (.seq vs, s')
 
 /-- put the decoded variable-size fields into the `none` slots, in order -/
 def mergeSlots : List (Option Val) → List Val → List Val
@@ -258,7 +260,7 @@ def deser : Ty → Stream → Nat → Option (Val × Stream)
         | some first =>
           if first != fixedSize then none
           else
-            match deserDyn fs (offs ++ [scope]) s1 with
+            match deserDyn fs scope (offs ++ [scope]) s1 with
             | none => none
             | some (dynVals, s2) => some (.seq (mergeSlots slots dynVals), s2)
   | .union hasNone opts, s, scope =>
@@ -296,21 +298,23 @@ def deserScan : List Ty → Stream → Option (List (Option Val) × List Nat × 
       match deserScan ts s1 with
       | none => none
       | some (slots, offs, s2) => some (none :: slots, o :: offs, s2)
-/-- second pass: the variable-size fields, delimited by `offs ++ [scope]` -/
-def deserDyn : List Ty → List Nat → Stream → Option (List Val × Stream)
-  | [], _, s => some ([], s)
-  | t :: ts, offs, s =>
-    if Spec.isFixed t then deserDyn ts offs s
+/-- second pass: the variable-size fields, delimited by `offs ++ [scope]`; an offset beyond the scope
+    is rejected before it is used as a field size -/
+def deserDyn : List Ty → Nat → List Nat → Stream → Option (List Val × Stream)
+  | [], _, _, s => some ([], s)
+  | t :: ts, scope, offs, s =>
+    if Spec.isFixed t then deserDyn ts scope offs s
     else
       match offs with
       | start :: stop :: rest =>
         if start > stop then none
+        else if stop > scope then none
         else if !(Spec.minLen t ≤ stop - start && stop - start ≤ Spec.maxLen t) then none
         else
           match deser t s (stop - start) with
           | none => none
           | some (v, s1) =>
-            match deserDyn ts (stop :: rest) s1 with
+            match deserDyn ts scope (stop :: rest) s1 with
             | none => none
             | some (vs, s2) => some (v :: vs, s2)
       | _ => none
